@@ -75,7 +75,8 @@ type Contract struct {
 	Asserts     []AssertSpec
 	Inputs      []AssertSpec // assumptions about data read from external input (listed as entry preconditions)
 	Sends       []AssertSpec
-	Sorts       map[string]*SortSpec // by call label, e.g. "Sort#1"
+	Sorts       map[string]*SortSpec         // by call label, e.g. "Sort#1"
+	Insts       map[string]map[string]*SExpr // call label -> callee ghost name -> expression (caller's choice)
 	Used        bool
 }
 
@@ -101,7 +102,7 @@ type ContractSet struct {
 	Files   []string
 }
 
-var kwRe = regexp.MustCompile(`^(define|func|trusted|inline|ghost|requires|ensures|modifies|loop|invariant|decreases|assert|assume-input|sends|sort)\b`)
+var kwRe = regexp.MustCompile(`^(define|func|trusted|inline|ghost|requires|ensures|modifies|loop|invariant|decreases|assert|assume-input|sends|sort|instantiate)\b`)
 
 func splitTop(s string, sep byte) []string {
 	var out []string
@@ -318,6 +319,24 @@ func (cs *ContractSet) loadFile(file string) error {
 					return fail(err)
 				}
 				curLoop.Decreases = e
+			case "instantiate":
+				// instantiate f#k ghost = EXPR : the callee's ghost is chosen by the caller at this call
+				fs := strings.SplitN(st.text, " ", 2)
+				if len(fs) != 2 || !strings.Contains(fs[1], "=") {
+					return fail(fmt.Errorf("instantiate f#k ghost = EXPR"))
+				}
+				kv := strings.SplitN(fs[1], "=", 2)
+				e, err := ParseSpec(strings.TrimSpace(kv[1]))
+				if err != nil {
+					return fail(err)
+				}
+				if cur.Insts == nil {
+					cur.Insts = map[string]map[string]*SExpr{}
+				}
+				if cur.Insts[fs[0]] == nil {
+					cur.Insts[fs[0]] = map[string]*SExpr{}
+				}
+				cur.Insts[fs[0]][strings.TrimSpace(kv[0])] = e
 			case "sort":
 				// sort LABEL modifies ITEMS | sort LABEL invariant name: EXPR
 				fs := strings.SplitN(st.text, " ", 3)
